@@ -34,6 +34,18 @@ SEG4 = {"descriptor_type_code": "Copy from block device to block device", "dc": 
 SEG5 = {"descriptor_type_code": "Copy from block device to block device", "dc": 1, "source_cscd_descriptor_id": 0,
         "destination_cscd_descriptor_id": 0, "block_device_number_of_blocks": 4, "source_block_device_logical_block_address": 1,
         "destination_block_device_logical_block_address": 10}
+def _cscd(ver, desig_type, desig):
+    return {"descriptor_type_code": 0xE4, "peripheral_device_type": 0,
+            ("target_descriptor_parameters" if ver == 4 else "cscd_descriptor_parameters"): {
+                "code_set": 1, "association": 0, "designator_type": desig_type, "designator_length": 0, "designator": desig},
+            "device_type_specific_parameters": {"disk_block_length": 512}}
+
+
+EUI8 = {"ieee_company_id": 0x589CFC, "vendor_specific_extension_id": b"\x11\x22\x33\x44\x55"}
+EUI12 = {"ieee_company_id": 0x589CFC, "vendor_specific_extension_id": b"\x11\x22\x33\x44\x55", "directory_id": b"\xd1\xd2\xd3\xd4"}
+NAA2 = {"naa": 2, "vendor_specific_identifier_a": 0xAB, "ieee_company_id": 0x589CFC, "vendor_specific_identifier_b": 0x010203}
+NAA6 = {"naa": 6, "ieee_company_id": 0x589CFC, "vendor_specific_identifier": 0xC44, "vendor_specific_identifier_extension": 0xC482D1A5F3D2B2B5}
+
 VARIANTS = {
     "TestUnitReady": [{}, {}],
     "Read10": [dict(blocksize=512, lba=0x01020304, tl=2, fua=1), dict(blocksize=512, lba=7, tl=1, group=0x1F)],
@@ -42,8 +54,12 @@ VARIANTS = {
     "Inquiry": [dict(evpd=1, page_code=0x83, alloclen=255), dict()],
     "ModeSense6": [dict(page_code=0x0A, sub_page_code=1, dbd=1, alloclen=200), dict(page_code=0x3F, pc=3)],
     "PersistentReserveInReadKeys": [dict(alloclen=0x1234), dict()],
-    "ExtendedCopy4": [dict(list_identifier=0x34, priority=1), dict(segment_descriptor_list="SEG4", inline_data=bytearray(b"abc"))],
-    "ExtendedCopy5": [dict(list_identifier=0x34, priority=1, immed=1), dict(segment_descriptor_list="SEG5")],
+    "ExtendedCopy4": [dict(list_identifier=0x34, priority=1, target_descriptor_list="CSCD4a"),
+                      dict(segment_descriptor_list="SEG4", inline_data=bytearray(b"abc"), target_descriptor_list="CSCD4b"),
+                      dict(list_identifier=0x34, priority=1)],
+    "ExtendedCopy5": [dict(list_identifier=0x34, priority=1, immed=1, cscd_descriptor_list="CSCD5a"),
+                      dict(segment_descriptor_list="SEG5", cscd_descriptor_list="CSCD5b"),
+                      dict(list_identifier=0x34, priority=1, immed=1)],
     "WriteSame16": [dict(blocksize=512, lba=0x1122334455667788, nb=3, data="BLK", unmap=1), dict(blocksize=512, lba=0, nb=1, data="BLK", ndob=1)],
 }
 INVALID = {
@@ -102,6 +118,9 @@ def kwargs_for(name, variant):
             kw[k] = [copy.deepcopy(SEG5)]
         elif v == "BLK":
             kw[k] = bytearray(b"\x77" * 512)
+        elif isinstance(v, str) and v.startswith("CSCD"):
+            ver = int(v[4])
+            kw[k] = copy.deepcopy([_cscd(ver, 2, EUI8), _cscd(ver, 3, NAA2)] if v[5] == "a" else [_cscd(ver, 2, EUI12), _cscd(ver, 3, NAA6), _cscd(ver, 2, EUI8)])
     return kw
 
 
@@ -121,11 +140,14 @@ def solo(name, variant):
     k = (name, variant)
     if k not in _SOLO:
         cls = CS.get_class(name)
-        c = cls(opcode_for(name), **kwargs_for(name, variant))
-        ob = observe_obj(c)
-        dec = cls.unmarshall_cdb(bytearray(ob[0]))
-        enc = bytes(cls.marshall_cdb(dict(dec)))
-        _SOLO[k] = (ob, dec, enc)
+        try:
+            c = cls(opcode_for(name), **kwargs_for(name, variant))
+            ob = observe_obj(c)
+            dec = cls.unmarshall_cdb(bytearray(ob[0]))
+            enc = bytes(cls.marshall_cdb(dict(dec)))
+            _SOLO[k] = (ob, dec, enc)
+        except Exception as e:   # noqa: BLE001 - reported by run_history as a violation, not a machinery error
+            _SOLO[k] = ((b"", 0, 0, b""), {"_error": "%s: %s" % (type(e).__name__, e)}, b"")
     return _SOLO[k]
 
 
@@ -181,12 +203,16 @@ def check_invariants(names, live, where):
 
 def run_history(names, hist):
     """replay on fresh objects from a canonical class state; returns (violations, canonical state)"""
+    out = []
     for n in names:
-        solo(n, 0), solo(n, 1)
+        for v in (0, 1):
+            if "_error" in solo(n, v)[1]:
+                out.append(("solo_construct_raises/%s" % n, "%s with valid arguments (variant %d) cannot be built at all: %s" % (n, v, solo(n, v)[1]["_error"])))
+    if out:
+        return out, ("broken",)
     defaults0 = defaults_digest()
     CS.get_class("TestUnitReady")(opcode_for("TestUnitReady"))      # canonical starting point
     live = []
-    out = []
     shared = {}
     for step, op in enumerate(hist):
         kind, name = op[0], op[1]
@@ -259,7 +285,7 @@ def thread_body(name, variant):
         return decoder_body(name)
     cls = CS.get_class(name)
     op = opcode_for(name)
-    kw = kwargs_for(name, variant)
+    kw = kwargs_for(name, thread_variant(name))
 
     def body():
         c = cls(op, **kw)
@@ -317,12 +343,16 @@ def decoder_body(name):
 _DSOLO = {}
 
 
+def thread_variant(name):
+    return 2 if name.startswith("ExtendedCopy") else 0
+
+
 def solo_thread(name, variant):
     if name.startswith("dec:"):
         if name not in _DSOLO:
             _DSOLO[name] = decoder_body(name)()
         return _DSOLO[name]
-    ob, dec, enc = solo(name, variant)
+    ob, dec, enc = solo(name, thread_variant(name))
     return (ob[0], tuple(sorted(dec.items())), enc, ob[1])
 
 
